@@ -188,3 +188,17 @@ Definition ex_delta : delta :=
 Definition ex_delta_foreign : delta :=
   mkDelta (mkC 5 1 2 1) [mkDEntry 0 KSym 0 [DAbs KSym 3]] [].
 
+
+(* ---------------------------------------------------------------------------------------------
+   Known finding (KNOWN_FINDINGS.txt, C06 key restore:loop-variable-type-token).
+   `Token::default()` is `Token::generate(StrId::default(), PathId::default())`, i.e. a token whose
+   text / path ids are 0 = whatever string / path THIS PROCESS interned first.  Pass 1 stores such a
+   placeholder in the implicit i32 type of a `for` loop variable
+   (crates/analyzer/src/handlers/create_symbol_table.rs, for_statement).  The dictionary codec
+   faithfully transports the VALUES those ids denote in the capturing process (dict_roundtrip), so the
+   restored placeholder denotes the capturing process's first-interned values, whereas a fresh
+   analysis yields the restoring process's.  A raw value that depends on the process is outside the
+   [delta] model above (there ARaw values are fixed by the file). *)
+Record process := mkProc { first_str : N; first_path : N }.
+Definition fresh_placeholder (p : process) : N * N := (first_str p, first_path p).
+Definition restored_placeholder (capturing restoring : process) : N * N := fresh_placeholder capturing.
